@@ -53,6 +53,10 @@ def make(kind):
         return svg.Rect(1, 2, 30, 40, fill="red", stroke="blue", stroke_width=3, transform="scale(2,3)")
     if kind == "RRect":
         return svg.Rect(1, 2, 30, 40, 3, 4, stroke="blue")
+    if kind == "RectLen":
+        return svg.Rect("10%", "5%", 30, 40, fill="red", stroke="blue", stroke_width=3, transform="scale(2,3)")
+    if kind == "CircleLen":
+        return svg.Circle("10%", "2em", 7, fill="#123456", transform="scale(2)")
     if kind == "Circle":
         return svg.Circle(5, 6, 7, fill="#123456", transform="translate(3,4)")
     if kind == "Ellipse":
@@ -196,7 +200,8 @@ def mutate(obj, m):
     elif m == "setgeom":
         for a in ("x", "cx", "x1"):
             if hasattr(obj, a):
-                setattr(obj, a, getattr(obj, a) + 10)
+                v = getattr(obj, a)
+                setattr(obj, a, v * 2 if isinstance(v, svg.Length) else v + 10)
                 return
         raise KeyError("no geometry attribute")
     elif m == "childedit":
